@@ -86,10 +86,16 @@ def judge_parse(data: bytes, mode, validate, pbf):
 
 
 def tick():
+    # CPU-time watchdog (ITIMER_VIRTUAL counts this process's own user time, so machine load cannot
+    # turn a slow legitimate call into a reported hang; a hang here is a busy loop - all streams are in memory)
     if _TICK[0] % 256 == 0:
-        signal.signal(signal.SIGALRM, _alarm)
-        signal.alarm(WATCHDOG_S)
+        signal.signal(signal.SIGVTALRM, _alarm)
+        signal.setitimer(signal.ITIMER_VIRTUAL, WATCHDOG_S)
     _TICK[0] += 1
+
+
+def disarm():
+    signal.setitimer(signal.ITIMER_VIRTUAL, 0)
 
 
 def judge_stream(data: bytes, cfg):
@@ -121,6 +127,14 @@ def judge_stream(data: bytes, cfg):
 
 
 def replay_case(case):
+    _TICK[0] = 0
+    try:
+        return _replay_case(case)
+    finally:
+        disarm()
+
+
+def _replay_case(case):
     if case["kind"] == "run":
         data = streams.TOKENS[case["tok"]][2] * case["n"] + streams.TOKENS["Uack"][2]
         return [(k + "|long_run_of_discarded_messages", d) for k, d in judge_stream(data, case["cfg"])[1]]
@@ -170,7 +184,7 @@ def eval_block(block, acc):
     try:
         _eval_block(block, acc)
     finally:
-        signal.alarm(0)
+        disarm()
 
 
 def _eval_block(block, acc):
@@ -248,6 +262,18 @@ def _eval_block(block, acc):
                 acc.transitions += len(r.items) + 1
                 acc.nstates += len(r.items) + 1
                 acc.outcomes[("stream", cfg.get("quitonerror", 0), type(r.raised).__name__ if r.raised else "end")] += 1
+                for key, detail in out:
+                    acc.violation(key, {"kind": "stream", "data": data.hex(), "cfg": cfg}, detail)
+    elif kind == "E":  # boundary-length frames and content-refused frames between every pair of neighbours
+        for seq in streams.long_seqs(streams.LONG_NEIGHBOURS):
+            if seq[0] != block[1] and not (block[1] is None and seq[0] in streams.LONG_NAMES):
+                continue
+            data = streams.seq_bytes(seq)
+            for cfg in SCOVER:
+                r, out = judge_stream(data, cfg)
+                acc.evaluations += 1
+                acc.transitions += len(r.items) + 1
+                acc.outcomes[("nb", cfg.get("quitonerror"), type(r.raised).__name__ if r.raised else "end")] += 1
                 for key, detail in out:
                     acc.violation(key, {"kind": "stream", "data": data.hex(), "cfg": cfg}, detail)
     elif kind == "R":  # long runs of consecutive discarded messages (no delivered item in between)
@@ -340,6 +366,7 @@ def run_tier(tier, t0):
     alphabet = streams.FRAME_TOKENS + streams.NOISE_TOKENS + streams.FRAG_TOKENS
     blocks += [("T", f, k) for f in alphabet]
     blocks += [("D", cid.hex(), q) for cid in FS.known_clsids()]
+    blocks += [("E", a) for a in [None] + streams.LONG_NEIGHBOURS]
     blocks += [("R", t, n) for t in ("Nbad", "N1", "Ubad", "Uack", "Rbad", "R1") for n in (1100, 3000)]
     blocks += [("K", f) for f in ("Uack", "Uinf", "N1", "R1", "Ubad", "Rz", "fb562", "fd300")]
     acc = engine.sweep(blocks, eval_block)
@@ -353,7 +380,8 @@ def run_tier(tier, t0):
             "distinct_nontrivial = distinct (space, class or policy, verdict) classes"
         ),
         assumptions=[
-            f"a single call running longer than {WATCHDOG_S}s is a hang (slowest legitimate case measured: ~4 s)",
+            f"a single call using more than {WATCHDOG_S}s of CPU time is a hang (slowest legitimate case measured: ~4 s)",
+            "every boundary-length frame and every content-refused frame (NMEATypeError, UBXTypeError, UBXMessageError, RTCMTypeError) between every pair of 7 neighbour tokens x 6 configurations",
             "runs of 1,100 and 3,000 consecutive discarded messages (rejected, or filtered out by protfilter) followed by one good frame",
             "stream livelock = more than 4*len+16 stream calls (deterministic horizon); socket streams (fixed chunks, every cut, close/timeout): more than 64 recv calls after the end",
         ],
